@@ -574,10 +574,105 @@ static void history(uint64_t c, const char *fam) {
     }
 }
 
+// ------------------------------------------------------------------ nested tables: assignment from one's own descendant
+// A table whose values own tables of the same type. Copy- or move-assigning a descendant's table over an ancestor reads
+// the source while (or after) the destination's old content, which contains the source, is released.
+struct NNode {
+    String<char>        Tag;
+    HArray<Key, NNode> Kids;
+};
+struct MNode {
+    std::string                                tag;
+    std::vector<std::pair<std::string, MNode>> kids;
+};
+
+static void nested_build(vf::Rng &r, HArray<Key, NNode> &t, std::vector<std::pair<std::string, MNode>> &m, unsigned depth) {
+    unsigned n = 1 + r.below(4);
+    for (unsigned i = 0; i < n; ++i) {
+        std::string k = std::string(1, char('a' + r.below(6))) + (r.chance(1, 3) ? "x" : "");
+        bool        dup = false;
+        for (auto &e : m) dup = dup || e.first == k;
+        if (dup) continue;
+        NNode &node = t[Key((const char *)k.data(), SizeT(k.size()))]; // (const: the non-const overload adopts the buffer)
+        MNode  mn;
+        mn.tag   = "t" + std::to_string(r.below(1000)) + std::string(r.below(40), 'q'); // owning strings of several sizes
+        node.Tag = String<char>((const char *)mn.tag.data(), SizeT(mn.tag.size()));
+        if (depth > 0 && r.chance(2, 3)) nested_build(r, node.Kids, mn.kids, depth - 1);
+        m.emplace_back(k, mn);
+    }
+}
+
+static bool nested_same(const HArray<Key, NNode> &t, const std::vector<std::pair<std::string, MNode>> &m, std::string &why) {
+    if (t.Size() != m.size()) return why = "size " + std::to_string(t.Size()) + " expected " + std::to_string(m.size()), false;
+    for (size_t i = 0; i < m.size(); ++i) {
+        const Key   *k = t.GetKey(SizeT(i));
+        const NNode *v = t.GetValue(Key(m[i].first.data(), SizeT(m[i].first.size())));
+        if (k == nullptr || v == nullptr) return why = "entry " + m[i].first + " missing", false;
+        if (std::string(k->First() ? k->First() : "", k->Length()) != m[i].first) return why = "order differs at " + std::to_string(i), false;
+        if (std::string(v->Tag.First() ? v->Tag.First() : "", v->Tag.Length()) != m[i].second.tag) return why = "payload of " + m[i].first, false;
+        if (!nested_same(v->Kids, m[i].second.kids, why)) return false;
+    }
+    return true;
+}
+
+static void nested_case(uint64_t c) {
+    vf::Rng                                     r(vf::g_seed, c);
+    HArray<Key, NNode>                          root;
+    std::vector<std::pair<std::string, MNode>>  model;
+    nested_build(r, root, model, 3);
+    std::string why;
+    if (!nested_same(root, model, why)) {
+        vf::fail("c13:nested:build", "%s", why.c_str());
+        return;
+    }
+    for (int step = 0; step < 6 && !model.empty(); ++step) {
+        // walk down to a random descendant that has children
+        HArray<Key, NNode>                         *t = &root;
+        std::vector<std::pair<std::string, MNode>> *m = &model;
+        std::vector<std::pair<HArray<Key, NNode> *, std::vector<std::pair<std::string, MNode>> *>> path;
+        path.emplace_back(t, m);
+        for (;;) {
+            std::vector<size_t> with;
+            for (size_t i = 0; i < m->size(); ++i) {
+                if (!(*m)[i].second.kids.empty()) with.push_back(i);
+            }
+            if (with.empty() || (path.size() > 1 && r.chance(1, 3))) break;
+            size_t i = with[r.below(uint32_t(with.size()))];
+            NNode *n = t->GetValue(Key((const char *)(*m)[i].first.data(), SizeT((*m)[i].first.size())));
+            if (n == nullptr) {
+                vf::fail("c13:nested:lookup", "step=%d", step);
+                return;
+            }
+            t = &n->Kids;
+            m = &(*m)[i].second.kids;
+            path.emplace_back(t, m);
+        }
+        if (path.size() < 2) break;
+        // assign the deepest table over one of its ancestors
+        size_t anc = r.below(uint32_t(path.size() - 1));
+        auto   snap = *path.back().second; // model copy first: the destination's old content contains the source
+        bool   mv   = r.chance(1, 2);
+        if (mv) *path[anc].first = Memory::Move(*path.back().first);
+        else *path[anc].first = *path.back().first;
+        *path[anc].second = snap;
+        vf::count(mv ? "nested_move_from_descendant" : "nested_copy_from_descendant");
+        if (!nested_same(root, model, why)) {
+            vf::fail(mv ? "c13:nested:move-assign-from-descendant" : "c13:nested:copy-assign-from-descendant", "step=%d %s", step, why.c_str());
+            return;
+        }
+    }
+}
+
 int main(int argc, char **argv) {
     vf::Args a = vf::parse_args(argc, argv);
     for (uint64_t c = a.from; c < a.to; ++c) {
         vf::begin_case(c);
+        if (c % 16 == 7) {
+            nested_case(c);
+            vf::distinct(vf::mix(c) ^ vf::g_seed);
+            vf::end_case();
+            continue;
+        }
         switch (c % 4) {
             case 0: history<HArray<Key, String<char>>, String<char>, true>(c, "HArray<String,String>"); break;
             case 1: history<HArray<Key, int>, int, true>(c, "HArray<String,int>"); break;
